@@ -57,6 +57,10 @@ type AliveDialerSet struct {
 
 	selectionPolicy consts.DialerSelectionPolicy
 	minLatency      minLatency
+
+	// reportedNotAlive remembers that aliveChangeCallback(false) was the last report, so that a revival
+	// which carries no latency measurement (data-UDP traffic success, reload selection floor) reports alive again.
+	reportedNotAlive bool
 }
 
 func NewAliveDialerSet(
@@ -292,6 +296,7 @@ func (a *AliveDialerSet) NotifyLatencyChange(dialer *Dialer, alive bool) {
 				a.minLatency.sortingLatency = time.Hour
 				a.calcMinLatency()
 				if a.minLatency.dialer == nil {
+					a.reportedNotAlive = true
 					a.mu.Unlock()
 					a.aliveChangeCallback(false)
 					a.mu.Lock()
@@ -344,6 +349,7 @@ func (a *AliveDialerSet) NotifyLatencyChange(dialer *Dialer, alive bool) {
 				var oldDialerName string
 				if bakOldBestDialer == nil {
 					// Not alive -> alive
+					a.reportedNotAlive = false
 					a.mu.Unlock()
 					a.aliveChangeCallback(true)
 					a.mu.Lock()
@@ -365,6 +371,7 @@ func (a *AliveDialerSet) NotifyLatencyChange(dialer *Dialer, alive bool) {
 				a.printLatencies()
 			} else {
 				// Alive -> not alive
+				a.reportedNotAlive = true
 				a.mu.Unlock()
 				a.aliveChangeCallback(false)
 				a.mu.Lock()
@@ -379,6 +386,13 @@ func (a *AliveDialerSet) NotifyLatencyChange(dialer *Dialer, alive bool) {
 	} else if alive && minPolicy && a.minLatency.dialer == nil {
 		// Use first dialer if no dialer has alive state (usually happen at the very beginning).
 		a.minLatency.dialer = dialer
+		if a.reportedNotAlive {
+			// Not alive -> alive without a latency measurement.
+			a.reportedNotAlive = false
+			a.mu.Unlock()
+			a.aliveChangeCallback(true)
+			a.mu.Lock()
+		}
 		if a.log.IsLevelEnabled(logrus.InfoLevel) {
 			a.log.WithFields(logrus.Fields{
 				"group":   a.dialerGroupName,
